@@ -252,7 +252,6 @@ func c11VsEncodingXML(c *engine.Ctx, in []byte, got []xTok) {
 	}
 }
 
-
 // c11Strict: whatever encoding/xml accepts in strict mode as a complete sequence of well-formed constructs must lex to
 // the same events (element names, attributes with normalised values, text and CDATA content, comments, PI targets,
 // directives). Returns a description of the first difference.
